@@ -1,6 +1,3 @@
-(* C09 — proofs (placeholder while the pipeline is brought up) *)
-From MV Require Import C09.Model.
-Local Open Scope Z_scope.
-
-Lemma trie_signed_index_oob_l : forall c, 128 <= c <= 255 -> index_in_range (byte_index_unrepaired c) = false.
-Proof. intros c H. unfold index_in_range, byte_index_unrepaired, schar. destruct (128 <=? c) eqn:E; lia. Qed.
+(* C09 — proofs: see ProofsAvl.v (tree), ProofsHt.v (hash table), ProofsTrie.v (trie),
+   Spec.v (reference map and simulation lemma). *)
+From MV Require Export C09.Model C09.Spec C09.ProofsAvl C09.ProofsHt C09.ProofsTrie.
